@@ -92,51 +92,67 @@ def pylit(s):
 # ---------------------------------------------------------------------------------------------------
 # law instances: each is {'law', 'env', 'exprs': [text...], 'check': fn(outs) -> None | str, 'trees': ..., 'sig': fn(outs)}
 def law_instances(rnd, envs, n):
+    """metamorphic laws on random trees. An instance: {'law','env','trees','build': trees -> [texts],'exprs','check','sig'}"""
     L = []
     ne = len(envs)
 
-    def add(law, ei, exprs, check, trees=None, sig=None):
-        L.append({'law': law, 'env': ei, 'exprs': exprs, 'check': check, 'trees': trees, 'sig': sig})
+    def add(law, ei, trees, build, check, sig=None):
+        L.append({'law': law, 'env': ei, 'trees': trees, 'build': build, 'exprs': build(trees), 'check': check, 'sig': sig})
 
     ERRS = ['nope', 'contains(5)', 'field.nope']
+    Z0 = {'val': {'t': 'int', 'v': '0'}}
+
+    def chk_swap(o):
+        if not (is_ok(o[0]) and is_ok(o[1])):
+            return None
+        if o[2] != o[3] or o[4] != o[5]:
+            return 'swapping error-free, non-binding operands changes the result'
+        if o[2] != B(truthy_j(o[0]['val']) and truthy_j(o[1]['val'])) or o[4] != B(truthy_j(o[0]['val']) or truthy_j(o[1]['val'])):
+            return 'and/or is not the Boolean conjunction/disjunction of its operands'
+        return None
+
+    def chk_sc(o):
+        if not is_ok(o[0]) or is_ok(o[3]):
+            return None
+        t = truthy_j(o[0]['val'])
+        if t and (o[1] != B(True) or is_ok(o[2])):
+            return 'truthy left operand: `or` must stop, `and` must evaluate the failing right operand'
+        if not t and (o[2] != B(False) or is_ok(o[1])):
+            return 'falsy left operand: `and` must stop, `or` must evaluate the failing right operand'
+        return None
+
+    def chk_zero(o):
+        if not (is_ok(o[0]) and is_ok(o[1])) or truthy_j(o[1]['val']):
+            return None
+        return None if o[2] == Z0 and o[3] == Z0 else 'division / modulo by zero is not 0'
+
+    def sig_chain(o):
+        if is_ok(o[2]) and is_ok(o[3]) and o[2]['val']['t'] == 'date' and o[3]['val']['t'] == 'str':
+            return 'C04/chain-carries-parsed-date'
+        return None
+
     for i in range(n):
         ei = rnd.randrange(ne)
         depth = rnd.choice([1, 2, 3, 4])
         a = G.gen(rnd, rnd.choice(['bool', 'bool', 'any']), depth)
         b = G.gen(rnd, rnd.choice(['bool', 'bool', 'any']), depth)
         c = G.gen(rnd, 'bool', depth)
-        sa, sb = src(a), src(b)
-        add('double-negation', ei, [sa, f'(not (not {sa}))'],
-            lambda o: None if o[1] == to_bool(o[0]) else 'not not a differs from bool(a)', trees=[a])
-        add('de-morgan-and', ei, [f'(not ({sa} and {sb}))', f'((not {sa}) or (not {sb}))'],
-            lambda o: None if o[0] == o[1] else 'not (a and b) differs from (not a) or (not b)', trees=[a, b])
-        add('de-morgan-or', ei, [f'(not ({sa} or {sb} or {src(c)}))', f'((not {sa}) and (not {sb}) and (not {src(c)}))'],
-            lambda o: None if o[0] == o[1] else 'not (a or b or c) differs from (not a) and (not b) and (not c)', trees=[a, b, c])
+        add('double-negation', ei, [a], lambda t: [src(t[0]), f'(not (not {src(t[0])}))'],
+            lambda o: None if o[1] == to_bool(o[0]) else 'not not a differs from bool(a)')
+        add('de-morgan-and', ei, [a, b],
+            lambda t: [f'(not ({src(t[0])} and {src(t[1])}))', f'((not {src(t[0])}) or (not {src(t[1])}))'],
+            lambda o: None if o[0] == o[1] else 'not (a and b) differs from (not a) or (not b)')
+        add('de-morgan-or', ei, [a, b, c],
+            lambda t: [f'(not ({src(t[0])} or {src(t[1])} or {src(t[2])}))',
+                       f'((not {src(t[0])}) and (not {src(t[1])}) and (not {src(t[2])}))'],
+            lambda o: None if o[0] == o[1] else 'not (a or b or c) differs from (not a) and (not b) and (not c)')
         if pure(a) and pure(b):
-            def chk_swap(o):
-                if not (is_ok(o[0]) and is_ok(o[1])):
-                    return None
-                if o[2] != o[3] or o[4] != o[5]:
-                    return 'swapping error-free, non-binding operands changes the result'
-                if o[2] != B(truthy_j(o[0]['val']) and truthy_j(o[1]['val'])) or o[4] != B(truthy_j(o[0]['val']) or truthy_j(o[1]['val'])):
-                    return 'and/or is not the Boolean conjunction/disjunction of its operands'
-                return None
-            add('swap-pure-operands', ei, [sa, sb, f'({sa} and {sb})', f'({sb} and {sa})', f'({sa} or {sb})', f'({sb} or {sa})'],
-                chk_swap, trees=[a, b])
-        # short circuit
+            add('swap-pure-operands', ei, [a, b],
+                lambda t: [src(t[0]), src(t[1]), f'({src(t[0])} and {src(t[1])})', f'({src(t[1])} and {src(t[0])})',
+                           f'({src(t[0])} or {src(t[1])})', f'({src(t[1])} or {src(t[0])})'], chk_swap)
         err = rnd.choice(ERRS)
-
-        def chk_sc(o):
-            if not is_ok(o[0]) or is_ok(o[3]):
-                return None
-            t = truthy_j(o[0]['val'])
-            if t and (o[1] != B(True) or is_ok(o[2])):
-                return 'truthy left operand: `or` must stop, `and` must evaluate the failing right operand'
-            if not t and (o[2] != B(False) or is_ok(o[1])):
-                return 'falsy left operand: `and` must stop, `or` must evaluate the failing right operand'
-            return None
-        add('short-circuit', ei, [src(c), f'({src(c)} or {err})', f'({src(c)} and {err})', err], chk_sc, trees=[c])
-        # comparison chain
+        add('short-circuit', ei, [c],
+            lambda t, err=err: [src(t[0]), f'({src(t[0])} or {err})', f'({src(t[0])} and {err})', err], chk_sc)
         ty = rnd.choice(['num', 'num', 'str', 'date', 'mixdate'])
         if ty == 'mixdate':
             x, y, z = rnd.choice(G.DATE_ATOMS), rnd.choice(['"2025-01-31"', '"2024-02-29"', '"2025-06-01"']), \
@@ -145,33 +161,18 @@ def law_instances(rnd, envs, n):
             x, y, z = (G.gen(rnd, ty, depth - 1) for _ in range(3))
         if pure(y):
             o1, o2 = rnd.choice(G.CMP[:6]), rnd.choice(G.CMP[:6])
-            sx, sy, sz = src(x), src(y), src(z)
-
-            def sig_chain(o):
-                if is_ok(o[2]) and is_ok(o[3]) and o[2]['val']['t'] == 'date' and o[3]['val']['t'] == 'str':
-                    return 'C04/chain-carries-parsed-date'
-                return None
-            add('chain-is-conjunction', ei, [f'({sx} {o1} {sy} {o2} {sz})', f'(({sx} {o1} {sy}) and ({sy} {o2} {sz}))', sx, sy],
-                lambda o: None if o[0] == o[1] else 'a op1 b op2 c differs from (a op1 b) and (b op2 c)',
-                trees=[x, y, z], sig=sig_chain)
-        # identifier case
+            add('chain-is-conjunction', ei, [x, y, z],
+                lambda t, o1=o1, o2=o2: [f'({src(t[0])} {o1} {src(t[1])} {o2} {src(t[2])})',
+                                         f'(({src(t[0])} {o1} {src(t[1])}) and ({src(t[1])} {o2} {src(t[2])}))', src(t[0]), src(t[1])],
+                lambda o: None if o[0] == o[1] else 'a op1 b op2 c differs from (a op1 b) and (b op2 c)', sig=sig_chain)
         e = G.gen(rnd, 'any', depth + 1)
-        se = src(e)
-        add('name-case', ei, [se, recase_identifiers(se, rnd)],
-            lambda o: None if o[0] == o[1] else 'changing the letter case of names / function names changes the result', trees=[e])
-        # division / modulo by zero
+        cs = rnd.randrange(1 << 30)
+        add('name-case', ei, [e], lambda t, cs=cs: [src(t[0]), recase_identifiers(src(t[0]), random.Random(cs))],
+            lambda o: None if o[0] == o[1] else 'changing the letter case of names / function names changes the result')
         nume = G.gen(rnd, 'num', depth)
         zero = rnd.choice(['0', '0.0', '(k - k)', 'False', '(amount - amount)', '(0 * month)'])
-
-        def chk_zero(o):
-            if not (is_ok(o[0]) and is_ok(o[1])):
-                return None
-            if truthy_j(o[1]['val']):
-                return None
-            z0 = {'val': {'t': 'int', 'v': '0'}}
-            return None if o[2] == z0 and o[3] == z0 else 'division / modulo by zero is not 0'
-        sn = src(nume)
-        add('div-mod-zero', ei, [sn, zero, f'({sn} / {zero})', f'({sn} % {zero})'], chk_zero, trees=[nume])
+        add('div-mod-zero', ei, [nume],
+            lambda t, zero=zero: [src(t[0]), zero, f'({src(t[0])} / {zero})', f'({src(t[0])} % {zero})'], chk_zero)
     return L
 
 
@@ -326,9 +327,21 @@ def same_modulo_error_class(a, b):
 
 
 # ---------------------------------------------------------------------------------------------------
-def run_one(env, text):
-    r = run_impl(IMPL, {'envs': [env], 'jobs': [[0, text]]})
-    return r['results'][0], r['log']
+def run_one(env, text, prelude=()):
+    """evaluate `text` (after the `prelude` texts, in the same process: the expression cache is process state)"""
+    r = run_impl(IMPL, {'envs': [env], 'jobs': [[0, x] for x in prelude] + [[0, text]]})
+    return r['results'][-1], r['log']
+
+
+def prelude_for(texts, ei, all_jobs):
+    """earlier expressions of this run that differ from one of `texts` only in letter case (they share a cache
+    key if the cache is keyed on a case-normalised string): replayed first, in the same process"""
+    want = {t.lower(): t for t in texts}
+    out = []
+    for e, t in all_jobs:
+        if t.lower() in want and t not in texts and t not in out:
+            out.append(t)
+    return out[:6]
 
 
 def model_one(env, text, out, log):
@@ -376,22 +389,22 @@ def main(tier):
     if quick:
         head = [t for t in small if tree_size(t) <= 2]
         rest = [t for t in small if tree_size(t) > 2]
-        small_sel = head + rnd.sample(rest, 1500)
+        small_sel = head + rnd.sample(rest, 3000)
         corr = [((i * 5 + i // 7) % nb, t) for i, t in enumerate(small_sel)]
     else:
         corr = [(ei, t) for t in small for ei in range(nb)]
     fam = G.comprehension_family()
     if quick:
-        corr += [((i * 7) % nb, t) for i, t in enumerate(fam) if i % 3 == run.seed % 3 or i >= len(fam) - 18]
+        corr += [((i * 7) % nb, t) for i, t in enumerate(fam) if i % 3 == run.seed % 3 or i >= len(fam) - 24]
     else:
         corr += [(ei, t) for t in fam for ei in (0, 1, 3, 4)]
     n_exh = len(corr)
-    for i in range(1200 if quick else 25000):
+    for i in range(3000 if quick else 25000):
         corr.append((rnd.randrange(len(envs)), G.gen(rnd, 'any', rnd.choice([2, 3, 4, 5, 6]))))
     corr_jobs = [[ei, src(t)] for ei, t in corr]
 
     # ---- law / spec streams ----------------------------------------------------------------------------
-    laws = law_instances(rnd, envs, 260 if quick else 4000)
+    laws = law_instances(rnd, envs, 500 if quick else 4000)
     specs, ref = spec_instances(rnd, envs, 480 if quick else 6000)
     ref_envs = []
     for expr, desc, expected in ref:
@@ -415,10 +428,11 @@ def main(tier):
     pyf = pyeval_family(rnd)
     if quick:
         pyf = [t for i, t in enumerate(pyf) if i % 2 == run.seed % 2 or i >= len(pyf) - 3]
-    py_jobs = [[ei, src(t)] for t in pyf for ei in ((0, 3) if quick else (0, 1, 3, 4, nb, nb + 1))]
+    py_jobs = [[ei, src(t)] for t in pyf for ei in ((0, 1) if quick else (0, 1, 2, 5, nb, nb + 1))]
 
+    all_jobs = corr_jobs + law_jobs + py_jobs
     t0 = time.time()
-    r = run_impl(IMPL, {'envs': all_envs, 'jobs': corr_jobs + law_jobs + py_jobs, 'pyeval': py_jobs}, timeout=3000)
+    r = run_impl(IMPL, {'envs': all_envs, 'jobs': all_jobs, 'pyeval': py_jobs}, timeout=3000)
     t_impl = time.time() - t0
     outs = r['results']
     corr_out = outs[:len(corr_jobs)]
@@ -454,8 +468,9 @@ def main(tier):
         if 'expect' in inst:
             case['expect'] = inst['expect']
         shrunk_from = None
-        if inst.get('trees') and inst['law'] in ('double-negation', 'name-case') and not sig:
+        if inst.get('trees') and not sig:
             case, shrunk_from = shrink_law(inst, all_envs[inst['env']], case)
+        case['prelude'] = prelude_for(case['exprs'], inst['env'], all_jobs)
         run.violation('law', {'kind': 'counterexample', 'case': case, 'observed': o, 'expected': msg,
                               'obligation': 'c04 law "%s" on the implementation' % inst['law'], 'shrunk_from': shrunk_from,
                               'n_failing_instances': sum(1 for i2, _, _ in law_fail if i2['law'] == inst['law']), 'broken': broken},
@@ -476,8 +491,9 @@ def main(tier):
         ei, tree = corr[i]
         small_tree, n0 = shrink_corr(all_envs[ei], tree)
         text = src(small_tree)
-        out, log = run_one(all_envs[ei], text)
-        run.violation('corr', {'kind': 'counterexample', 'case': {'env': all_envs[ei], 'expr': text},
+        prelude = prelude_for([text], ei, all_jobs)
+        out, log = run_one(all_envs[ei], text, prelude)
+        run.violation('corr', {'kind': 'counterexample', 'case': {'env': all_envs[ei], 'expr': text, 'prelude': prelude},
                                'observed': out, 'expected': 'the outcome of Expr.Eval.eval_top on the same input (model_vs_impl)',
                                'model_says': model_one(all_envs[ei], text, out, log),
                                'obligation': 'model_vs_impl(Expr.Eval.eval_top, evaluate_transaction)',
@@ -505,7 +521,7 @@ def main(tier):
     run.cov.update({
         'evaluations': len(corr_jobs) + len(law_jobs) + 2 * len(py_jobs),
         'distinct_nontrivial': nontrivial,
-        'rule': 'correspondence: all expressions of <= 3 nodes over a 14-leaf alphabet (quick: all of <= 2 nodes + 1500 sampled of 3; '
+        'rule': 'correspondence: all expressions of <= 3 nodes over a 14-leaf alphabet (quick: all of <= 2 nodes + 3000 sampled of 3; '
                 'thorough: all x 6 boundary transactions), comprehension/scoping templates, random typed trees of depth <= 6, on boundary '
                 'transactions (zero/negative/large amount, month/year ends, leap day, empty description, missing date, custom fields, '
                 'source) x 0-2 supplemental tables of 0-3 rows and random environments; non-trivial = distinct expression texts evaluated '
@@ -524,24 +540,21 @@ def main(tier):
 
 
 def shrink_law(inst, env, case):
-    """shrink the first tree of a law instance while the law still fails on the implementation"""
-    law = inst['law']
-    t0 = inst['trees'][0]
+    """shrink the trees of a law instance, one component at a time, while the law still fails on the implementation"""
+    trees = list(inst['trees'])
 
-    def exprs_for(t):
-        s = src(t)
-        if law == 'double-negation':
-            return [s, f'(not (not {s}))']
-        return [s, recase_identifiers(s, random.Random(1))]
-
-    def fails(t):
-        ex = exprs_for(t)
+    def fails_with(ts):
+        ex = inst['build'](ts)
         rr = run_impl(IMPL, {'envs': [env], 'jobs': [[0, x] for x in ex]})['results']
-        return bool(inst['check'](rr))
-    if not fails(t0):
-        return case, None
-    small = shrink_tree(t0, fails, budget=60)
-    return {'law': law, 'env': env, 'exprs': exprs_for(small)}, tree_size(t0)
+        return bool(inst['check'](rr)) and not (inst.get('sig') and inst['sig'](rr))
+    if not fails_with(trees):
+        return case, None           # needs the state of the whole run (e.g. a cache): keep as found
+    n0 = sum(tree_size(t) for t in trees)
+    for k in range(len(trees)):
+        trees[k] = shrink_tree(trees[k], lambda t, k=k: fails_with(trees[:k] + [t] + trees[k + 1:]), budget=40)
+    out = dict(case)
+    out['exprs'] = inst['build'](trees)
+    return out, n0
 
 
 def shrink_corr(env, tree):
@@ -550,6 +563,8 @@ def shrink_corr(env, tree):
         text = src(t)
         out, log = run_one(env, text)
         return model_one(env, text, out, log) == 'disagree'
+    if not fails(tree):
+        return tree, None            # reproduces only with the state of the whole run: keep as found
     return shrink_tree(tree, fails, budget=25), tree_size(tree)
 
 
@@ -560,16 +575,17 @@ def replay(path):
         return 0
     case = obj['case']
     if 'expr' in case:     # correspondence
-        out, log = run_one(case['env'], case['expr'])
+        out, log = run_one(case['env'], case['expr'], case.get('prelude', []))
         verdict = model_one(case['env'], case['expr'], out, log)
         print(json.dumps({'expr': case['expr'], 'implementation': out, 'model_vs_impl': verdict}, indent=1))
         if verdict == 'disagree' or verdict.startswith('error'):
             print(f'VIOLATION property=C04 replay={path}')
             return 1
         return 0
-    rr = run_impl(IMPL, {'envs': [case['env']], 'jobs': [[0, x] for x in case['exprs']],
+    pre = case.get('prelude', [])
+    rr = run_impl(IMPL, {'envs': [case['env']], 'jobs': [[0, x] for x in pre + case['exprs']],
                          'pyeval': [[0, x] for x in case['exprs']] if case['law'] == 'python-construct' else []})
-    outs = rr['results']
+    outs = rr['results'][len(pre):]
     print(json.dumps({'law': case['law'], 'exprs': case['exprs'], 'implementation': outs, 'expected': obj.get('expected')}, indent=1))
     law = case['law']
     if law == 'python-construct':
